@@ -483,7 +483,12 @@ def _zip_sources(P, gev, site):
             x = B.peel(arg) if arg is not None else None
             out.append([("term", e) for e in x.a[1]] if x is not None and x.op == "agg" and x.a[0][0] == "array" else None)
         elif src.op == "agg" and src.a[0][0] == "array":
-            out.append([("term", e) for e in src.a[1]])
+            lits = [_lit_bytes(B.nf(gev, e)) for e in src.a[1]]
+            if src.a[1] and all(x is not None for x in lits):
+                # a written-out table of label literals
+                out.append([("label", x) for x in lits])
+            else:
+                out.append([("term", e) for e in src.a[1]])
         else:
             out.append(None)
     return out[0], out[1]
@@ -605,6 +610,16 @@ def transcript_events(ev, xf=None):
             n = s.a[1]
     out.append(("challenge", _lit(B.nf(ev, ch[0].args[1])), n))
     return out
+
+
+def _lit_bytes(segs):
+    """The bytes of a literal byte string, else None."""
+    if len(segs) == 1 and segs[0][0] == "v" and segs[0][1].op == "const" and segs[0][1].a[0] == "bytes":
+        try:
+            return bytes.fromhex(segs[0][1].a[1])
+        except Exception:
+            return None
+    return None
 
 
 def _lit(segs):
